@@ -6,7 +6,7 @@ from hypothesis import strategies as st
 
 from .. import gen
 from ..core import SubCheck, Violation
-from ..oracle import (lib, np_rows, np_flat, lazy_ra, mk_rows, expect_ragged, expect_refused, expect_unchanged,
+from ..oracle import (LAZY_CHOICES, lib, np_rows, np_flat, lazy_ra, mk_rows, expect_ragged, expect_refused, expect_unchanged,
                       jsonable, arrays_equal)
 
 RULE = ("Cases = (row-length vector, ufunc, first-operand dtype, second operand kind in {RaggedArray of equal lengths "
@@ -187,7 +187,7 @@ def ufunc_case(draw, tier, kinds=("unary", "ragged", "scalar", "column")):
     a = draw(gen.ragged(tier, dts=gen.C04_DT))
     lens = a["lens"]
     kind = draw(st.sampled_from(kinds))
-    case = {"a": a, "kind": kind, "la": draw(st.sampled_from([0, 0, 1, 2, 3, 4])), "lb": 0, "b": None, "side": "right"}
+    case = {"a": a, "kind": kind, "la": draw(st.sampled_from(LAZY_CHOICES)), "lb": 0, "b": None, "side": "right"}
     if kind == "unary":
         name = draw(st.sampled_from(sorted(UNARY)))
         opname = UNARY[name]
@@ -198,7 +198,7 @@ def ufunc_case(draw, tier, kinds=("unary", "ragged", "scalar", "column")):
         if kind == "ragged":
             dt = draw(st.sampled_from(gen.C04_DT))
             case["b"] = {"dt": dt, "vals": draw(gen.flat_values(dt, sum(lens)))}
-            case["lb"] = draw(st.sampled_from([0, 0, 1, 2, 3, 4]))
+            case["lb"] = draw(st.sampled_from(LAZY_CHOICES))
         elif kind == "scalar":
             case["b"] = draw(_SC)
         else:
